@@ -18,7 +18,7 @@ theorem C17_refuse (cfg : Cfg) (w : World) (h : plan cfg w.fs = .refuse) :
 section
 variable (cfg : Cfg) (fs : FS) (sbytes abytes : Bytes) (sm am : Nat) (series applied : List Series.Entry)
   (hs : fs.readFile seriesKey = .ok (sbytes, sm)) (hss : Series.readSeries sbytes = .ok series)
-  (ha : fs.readFile appliedKey = .ok (abytes, am)) (haa : Series.readSeries abytes = .ok applied)
+  (ha : fs.readFile appliedKey = .ok (abytes, am)) (haa : Series.readApplied abytes = .ok applied)
 include hs hss ha haa
 
 /-- `.pc/applied-patches` differs from the series at some position ⇒ refused -/
